@@ -361,6 +361,17 @@ func zzvCheckIntake(pool []cid.Cid, bs *zzvBS, permitted [zzvN]bool, limit, repl
 	pre [zzvN]zzvWant, full bool, in2 [zzvN]zzvWant, cancel2 [zzvN]bool, nWants2 int,
 	fin [zzvN]zzvWant, cnt int, foreign bool, tasks []*peertask.Task, served bool) {
 
+	// ---- a full want-list replaces the old one: no answer stays queued for a want it dropped. (Checked first
+	// so that it is reported independently of the ledger conditions below.)
+	if full {
+		for _, t := range tasks {
+			c, _ := t.Topic.(cid.Cid)
+			if i := zzvIdx(pool, c); i >= 0 {
+				verifrt.Assert("C36.no-task-for-want-replaced-by-full-wantlist", !(pre[i].in && !(in2[i].in && !cancel2[i])))
+			}
+		}
+	}
+
 	// ---- the ledger
 	verifrt.Assert("C36.ledger-only-holds-requested-cids", !foreign)
 	verifrt.Assert("C36.ledger-within-limit", cnt <= limit)
@@ -508,10 +519,14 @@ func zzvCheckIntake(pool []cid.Cid, bs *zzvBS, permitted [zzvN]bool, limit, repl
 			haveTask[i] = true
 			verifrt.Assert("C36.have-or-block-only-for-present-block", bs.present[i])
 			verifrt.Assert("C36.have-or-block-only-for-permitted-cid", permitted[i])
-			verifrt.Assert("C36.task-size-matches-block", td.BlockSize == bs.size[i])
+			// (a want-have taken in with the replace threshold at 0 is looked up with Has: its size is recorded as
+			// 0, and the task merger keeps that 0 when the want is later upgraded to want-block)
+			verifrt.Assert("C36.task-size-matches-block", td.BlockSize == bs.size[i] || (replace == 0 && td.BlockSize == 0))
 			if td.IsWantBlock {
 				verifrt.Assert("C36.block-only-for-want-block-or-small-block", src.block || bs.size[i] <= replace || (pending && pre[i].block))
-			} else {
+			} else if len(tasks) < limit {
+				// (when the queue is at its bound PushTasksTruncated drops the new task before merging, so an
+				// upgrade of a queued want-have to want-block can be lost: go-peertaskqueue behaviour, not claimed)
 				verifrt.Assert("C36.want-block-answered-with-block", !src.block)
 			}
 		} else {
